@@ -120,6 +120,56 @@ theorem C08_complete (cfg : Cfg) (ps0 : PS) (salt bRand : Bytes) (a : Nat)
     rw [e2]; simp only []
     rw [e3.1]
 
+/-- **Nothing that happened before matters.**  A served M1 always installs a fresh, unverified verifier
+    built from this request's own randomness and the current setup code — whatever verifier was there
+    (a failed attempt, an abandoned or even a verified exchange) or none.  (`C08_complete` is stated for an
+    arbitrary unpaired `ps0`, i.e. for an arbitrary previous verifier.) -/
+theorem C08_m1_fresh (cfg : Cfg) (ps : PS) (r : Req) (t : Items) (hp : ps.paired = [])
+    (hd : Tlv.decode r.body [] = some t) (hs : lookup t T_SEQUENCE_NUM = some [1]) :
+    (step cfg ps r).1.verifier
+        = some (Srp.mk cfg.c.H cfg.G SRP_USER ps.pincode r.salt (bytesToNat r.bRand)) ∧
+    verifiedNow (step cfg ps r).1 = false ∧
+    (step cfg ps r).2.1
+        = .m2 r.salt (Srp.mk cfg.c.H cfg.G SRP_USER ps.pincode r.salt (bytesToNat r.bRand)).Bb :=
+  m1_fresh cfg ps r t hp hd hs
+
+/-- No pair-setup request, served or refused, changes the setup code, the accessory identifier or its
+    long-term key (so "the correct code" is the same before and after any history). -/
+theorem C08_identity_stable (cfg : Cfg) (ps : PS) (r : Req) :
+    (step cfg ps r).1.pincode = ps.pincode ∧ (step cfg ps r).1.mac = ps.mac ∧
+    (step cfg ps r).1.ltpk = ps.ltpk :=
+  step_identity cfg ps r
+
+/-- **Bystanders are invisible.**  Connections being made and lost and other (refused) requests on other
+    connections leave the pair-setup state unchanged: a history of events behaves exactly like the
+    sequence of its pair-setup requests. -/
+theorem C08_bystanders_invisible (cfg : Cfg) (ps : PS) (evs : List Ev) :
+    runEv cfg ps evs = run cfg ps (reqsOf evs) :=
+  runEv_eq_run cfg evs ps
+
+/-- **Completeness under interleaving and after any history**: `C08_complete` for any event list whose
+    pair-setup requests are exactly the controller's three (bystander connections coming and going and
+    refused requests anywhere in between), started in ANY unpaired state `ps0` (any earlier failed,
+    abandoned or completed-but-unrecorded exchange).  A bystander's own pair-setup request is excluded:
+    any connection may replace the single SRP session with its M1 (DESIGN §9). -/
+theorem C08_complete_interleaved (cfg : Cfg) (ps0 : PS) (salt bRand : Bytes) (a : Nat)
+    (ident cltpk csig u s2 b2 s3 b3 : Bytes) (evs : List Ev)
+    (hp : ps0.paired = []) (hN : 1 < cfg.G.N) (hg : Nat.Coprime cfg.G.g cfg.G.N)
+    (ok : CryptoOK cfg.c ps0.ltpk) (huuid : cfg.c.uuidOf ident = some u) :
+    let srv := Srp.mk cfg.c.H cfg.G SRP_USER ps0.pincode salt (bytesToNat bRand)
+    let cl := client cfg.c.H cfg.G SRP_USER ps0.pincode salt srv.Bb a
+    let key := cfg.c.hkdf cl.K P3_SALT P3_INFO
+    let sig := cfg.c.sign (cfg.c.hkdf cl.K P5_SALT P5_INFO ++ ps0.mac ++ ps0.ltpk)
+    reqsOf evs = [⟨ctrlM1, salt, bRand⟩, ⟨ctrlM3 cl.Ab cl.M, s2, b2⟩,
+                  ⟨ctrlM5 cfg.c cl.K (ctrlSub ident cltpk csig), s3, b3⟩] →
+    cfg.c.sigVerify cltpk csig (cfg.c.hkdf cl.K P4_SALT P4_INFO ++ ident ++ cltpk) = some true →
+    (runEv cfg ps0 evs).2 = [.m2 salt srv.Bb, .m4 cl.HAMK, .m6 (cfg.c.aeadEnc key NONCE6 (accSub ps0 sig))] ∧
+    (runEv cfg ps0 evs).1.paired = [(u, cltpk, PERM_ADMIN)] := by
+  intro srv cl key sig hevs hsig
+  rw [runEv_eq_run, hevs]
+  have h := C08_complete cfg ps0 salt bRand a ident cltpk csig u s2 b2 s3 b3 hp hN hg ok huuid hsig
+  exact ⟨h.1, h.2.2.2⟩
+
 /-! ### non-vacuity: the hypotheses are satisfiable and the statement is about a non-trivial run -/
 
 example : CryptoOK toyCrypto [7] := toyCrypto_ok
